@@ -685,13 +685,30 @@ def _wire(repo: Repo, name: str, v1, v2, axis=0):
 def coincidence_symmetry(repo: Repo) -> RuleRun:
     r = RuleRun(PROP, "C01.COINCIDENCE-SYMMETRY", floor=10, what="Wire.is_coincident accepts either vertex order, is_aligned the same order only; Axis.add_neighbour / is_aligned are built on them")
     r.exhaustive = True
-    a, b, c = Sym("va"), Sym("vb"), Sym("vc")
+    # vertices are objects with a position on a 1-D model line: identity and position are different things (a face-merged
+    # interface has two vertex objects at every point of the slave side)
+    def vtx(name, pos, index):
+        return Obj(name, position=float(pos), index=index)
+
+    a, b, c = vtx("va", 0, 0), vtx("vb", 1, 1), vtx("vc", 2, 2)
+    a2, b2 = vtx("va-duplicate", 0, 3), vtx("vb-duplicate", 1, 4)
     coin = repo.func("items.wires.wire.Wire.is_coincident")
     alig = repo.func("items.wires.wire.Wire.is_aligned")
     addc = repo.func("items.wires.wire.Wire.add_coincident")
 
+    def model_hook(ev, call, name):
+        nm = (name or "").split(".")[-1]
+        if nm == "get_args":
+            return (0, 1, 2)
+        if nm == "norm" and call.args:
+            v = ev.eval(call.args[0])
+            if isinstance(v, (int, float)) and not isinstance(v, bool):
+                return abs(v)
+        return NO_MATCH
+
     def run(fi, this, other):
-        ev = Evaluator(repo=repo, module=fi.module)
+        ev = Evaluator(repo=repo, module=fi.module, call_hook=model_hook)
+        ev.float_arith = True
         try:
             return ev.call_funcinfo(fi, [this, other])
         except Raised as err:
@@ -705,6 +722,8 @@ def coincidence_symmetry(repo: Repo) -> RuleRun:
         ("shares first vertex only", (a, b), (a, c), False),
         ("shares second vertex only", (a, b), (c, b), False),
         ("shares one vertex, crosswise", (a, b), (b, c), False),
+        ("other vertex objects at the same two places (the duplicated side of a merged interface)", (a, b), (a2, b2), False),
+        ("one shared vertex, the other a duplicate at the same place", (a, b), (a, b2), False),
     ]
     for label, v, w, expect in cases:
         got = run(coin, _wire(repo, "w1", *v), _wire(repo, "w2", *w))
@@ -734,7 +753,7 @@ def coincidence_symmetry(repo: Repo) -> RuleRun:
     axis_cls = repo.cls("items.wires.axis.Axis")
     addn = repo.func("items.wires.axis.Axis.add_neighbour")
     aal = repo.func("items.wires.axis.Axis.is_aligned")
-    verts = [Sym(f"v{i}") for i in range(12)]
+    verts = [vtx(f"v{i}", 10 + i, 10 + i) for i in range(12)]
 
     def axis(name, pairs):
         ax = Obj(name, cls=axis_cls)
